@@ -498,7 +498,7 @@ def rule_lane_copy(ctx, R="C04/lane-copy"):
                 return nosite(core(dict(rng[3])["end"]))
             nd = windowed(d, lambda e: view(e, "from_raw_parts_mut", "as_mut_ptr", 16, 1))
             ns = windowed(s_, lambda e: view(e, "from_raw_parts", "as_ptr", 4, 2))
-            ok = nd is not None and ns is not None and nd == ns and nd[0] == "call" and nd[1].split("::")[-1] == "min"
+            ok = nd is not None and ns is not None and nd == ns and nd[0] == "call" and __import__("engine.names").names.stdseg(nd[1]) == "min"
             if ok:
                 lens = [nosite(strip(x)) for x in nd[2]]
                 ok = all(x[0] in ("call", "len") for x in lens)
@@ -983,3 +983,7 @@ def run(ctx):
     # try every strategy before it gives up (rules/families.py, reader family)
     from rules import families as _famr
     _famr.reader(ctx, "C04")
+    # `every thread that exists ... is listed`: a thread is attached and its stop AWAITED (blocking waitpid(__WALL) of nix, no polling with a
+    # give-up path) before anything is read from it; a thread whose stop was not awaited is dropped from the list (same rule instance as C03/attach-detach)
+    from rules import c03 as _c03w
+    _c03w.rule_blocking_wait(ctx, R="C04/stop-awaited")
